@@ -124,7 +124,8 @@ pub fn generate(rng: &mut Rng, fault_free: bool) -> K17 {
             args.push(format!("(L{i},{:.2},{:.2})", RX.0 + rng.f64_range(-0.5, 0.5), RX.1 + rng.f64_range(-0.5, 0.5)));
         }
     }
-    let duration_us: u64 = 500_000 + rng.below(if fault_free { 4_000_000 } else { 9_000_000 });
+    let deep = simcore::deep() && rng.chance(0.33);
+    let duration_us: u64 = 500_000 + rng.below(if fault_free { 4_000_000 } else if deep { 25_000_000 } else { 9_000_000 });
     // traffic
     let nac = rng.usize_below(7);
     let mut lines: Vec<(u64, String)> = vec![];
@@ -137,7 +138,7 @@ pub fn generate(rng: &mut Rng, fault_free: bool) -> K17 {
         let mut ctr = 0u32;
         let lat = RX.0 + rng.f64_range(-0.8, 0.8);
         let lon = RX.1 + rng.f64_range(-0.8, 0.8);
-        while t < to && lines.len() < 150 {
+        while t < to && lines.len() < if deep { 400 } else { 150 } {
             ctr += 1;
             let me = match ctr % 4 {
                 0 => wire::me_identification(4, 0, &format!("AC{a}X{}", ctr % 10)),
@@ -160,7 +161,7 @@ pub fn generate(rng: &mut Rng, fault_free: bool) -> K17 {
         }
     }
     // operator events; bursts put several into one 10 ms poll window
-    let nev = if fault_free { 3 + rng.usize_below(10) } else { 5 + rng.usize_below(76) };
+    let nev = if fault_free { 3 + rng.usize_below(10) } else { 5 + rng.usize_below(if deep { 250 } else { 76 }) };
     let mut events: Vec<KEvent> = vec![];
     let mut t = rng.below(200_000);
     let (mut w, mut h) = (cols, rows);
